@@ -1,3 +1,44 @@
-(* C12 -- placeholder until the proofs land; see LCSProofs.v *)
-From Coq Require Import List ZArith.
-Require Import XV.LCS.
+(* C12 -- utils.longest_common_subsequence (model: XV.LCS.lcs_seq, validated
+   against the Python implementation by differential testing).
+
+   For an ARBITRARY boolean predicate eqfn (no reflexivity, symmetry or
+   transitivity assumed) and arbitrary lists xs, ys, the function
+     - terminates normally with a result (no KeyError, never falls off the loop),
+     - returns a list of index pairs (i, j) that is strictly increasing in both
+       components, each pair designating elements xs[i], ys[j] with eqfn true,
+     - and no list of index pairs with these properties is longer.
+   Proofs: XV.LCSProofs. *)
+From Coq Require Import List ZArith Sorting.Sorted.
+Require Import XV.LCS XV.LCSProofs.
+Local Open Scope Z_scope.
+
+Theorem C12_total :
+  forall (A B : Type) (eqfn : A -> B -> bool) (xs : list A) (ys : list B),
+  exists ps : list (Z * Z), lcs_seq eqfn xs ys = Some ps.
+Proof. exact (@lcs_seq_total). Qed.
+Print Assumptions C12_total.
+
+Theorem C12_valid :
+  forall (A B : Type) (eqfn : A -> B -> bool) (xs : list A) (ys : list B)
+         (ps : list (Z * Z)),
+  lcs_seq eqfn xs ys = Some ps ->
+  StronglySorted (fun p q => fst p < fst q /\ snd p < snd q) ps /\
+  Forall (fun p => 0 <= fst p /\ 0 <= snd p /\
+                   exists a b, nth_error xs (Z.to_nat (fst p)) = Some a /\
+                               nth_error ys (Z.to_nat (snd p)) = Some b /\
+                               eqfn a b = true) ps.
+Proof. exact (@lcs_seq_valid). Qed.
+Print Assumptions C12_valid.
+
+Theorem C12_maximal :
+  forall (A B : Type) (eqfn : A -> B -> bool) (xs : list A) (ys : list B)
+         (ps qs : list (Z * Z)),
+  lcs_seq eqfn xs ys = Some ps ->
+  StronglySorted (fun p q => fst p < fst q /\ snd p < snd q) qs /\
+  Forall (fun p => 0 <= fst p /\ 0 <= snd p /\
+                   exists a b, nth_error xs (Z.to_nat (fst p)) = Some a /\
+                               nth_error ys (Z.to_nat (snd p)) = Some b /\
+                               eqfn a b = true) qs ->
+  (length qs <= length ps)%nat.
+Proof. exact (@lcs_seq_maximal). Qed.
+Print Assumptions C12_maximal.
